@@ -6,8 +6,8 @@ use serde_json::{json, Value};
 use std::str::FromStr;
 
 fn key(map: usize, k: i64) -> String {
-    let names: [&str; 2] = match map { 0 => ["Package", "Depends"], 1 => ["a", "~b#c"], _ => ["X-1.2+z", "!_"] };
-    names[(k as usize - 1) % 2].to_string()
+    let names: [&str; 3] = match map { 0 => ["Package", "Depends", "package"], 1 => ["a", "~b#c", "A"], _ => ["X-1.2+z", "!_", "x-1.2+Z"] };
+    names[(k as usize - 1) % 3].to_string()
 }
 fn val(map: usize, v: i64) -> String {
     let pool: [&str; 6] = match map {
